@@ -256,6 +256,13 @@ def check(run):
             nm = set()
             for g in guards(x):
                 nm |= value_names(F, g[0])
+            # a `return True` in the else clause of a loop depends on that loop never breaking
+            lp_ = x._parent if isinstance(getattr(x, '_parent', None), ast.For) and x in x._parent.orelse else None
+            if lp_ is not None:
+                nm |= value_names(F, lp_.iter)
+                for b in [b for b in ast.walk(lp_) if isinstance(b, ast.Break)]:
+                    for g in guards(b, stop=lp_):
+                        nm |= value_names(F, g[0])
             need = [p_ for p_ in ps[1:] if p_ not in nm]
             run.check(not need, r3, fi.short, 'the match depends on %s' % ps[1:], 'arguments %s ignored' % need, x)
         for x in falses:
@@ -271,6 +278,16 @@ def check(run):
         for lp in ploops:
             trues = [x for x in q.walk(F, False) if isinstance(x, ast.Return) and isinstance(x.value, ast.Constant) and x.value.value is True]
             flags = {a[1] for x in trues for a in guard_atoms(x) if a[0] == 'truthy' and a[1].isidentifier()}
+            k, v_ = [e.id for e in lp.target.elts] if isinstance(lp.target, ast.Tuple) else ('?', '?')
+            if any(x in lp.orelse for x in trues):
+                # for/else form: True is returned iff the loop over the parameters never breaks; every break is a mismatch test
+                brks = [b for b in ast.walk(lp) if isinstance(b, ast.Break)]
+                okb = len(brks) >= 1 and not any(isinstance(b, (ast.Return, ast.Continue)) for st_ in lp.body for b in ast.walk(st_))
+                for b in brks:
+                    at = guard_atoms(b, stop=lp)
+                    okb = okb and len(at) == 1 and at[0][0] == '!=' and v_ in (at[0][1], at[0][2]) and 'getattr(' in at[0][1] + at[0][2] and k in at[0][1] + at[0][2]
+                run.check(okb, r3, fi.short, 'True iff no parameter mismatches (for/else form)', 'the parameter loop can finish without a mismatch test deciding', lp)
+                continue
             run.check(len(flags) == 1, r3, fi.short, 'a single all-parameters-match flag decides', 'flags: %s' % sorted(flags), F)
             for flag in flags:
                 inside = [(st, v) for st, v in q.assigned_value(F, flag) if q.in_node(st, lp)]
@@ -279,7 +296,6 @@ def check(run):
                     all(isinstance(v, ast.Constant) and v.value is True for st, v in outside) and len(outside) == 1
                 run.check(good, r3, fi.short, 'the flag starts True and can only be cleared by a mismatch',
                           'a later matching parameter can set the flag again: an event with a wrong earlier parameter is accepted', lp)
-                k, v_ = [e.id for e in lp.target.elts] if isinstance(lp.target, ast.Tuple) else ('?', '?')
                 for st, v in inside:
                     at = guard_atoms(st, stop=lp)
                     run.check(len(at) == 1 and at[0][0] == '!=' and v_ in (at[0][1], at[0][2]) and ('getattr(' in at[0][1] + at[0][2]) and k in at[0][1] + at[0][2], r3, fi.short,
